@@ -4,6 +4,20 @@ import json, os
 ROOT = os.path.dirname(os.path.abspath(__file__))
 S = 'Engine S: symbolic execution of the clang-14 LLVM IR of the real translation unit (harness #includes the .cpp), z3 decides every assertion and every memory/UB obligation on every path'
 CLAIMED = {
+ 'C01': ('Bounded symbolic check of the real ChunkStore: every operation sequence of length 3 (quick) / 4 (thorough) over put / get / get_record / sweep_expired / snapshot starting with a store, two chunk ids, symbolic TTLs, payload bytes and clock; a deadline oracle decides every lookup including lookups exactly at the deadline, overwrite replaces bytes and deadline, sweep removes exactly the expired chunks.',
+         'event times on a 1/8 s grid (order-isomorphic to any real schedule of <= 8 events), TTL -8..247 s, persistence off; Node-level fetch/peer-request/listing paths (which call ChunkStore) are not encoded'),
+ 'C06': ('Bounded symbolic check of the real KademliaTable provider table: every operation sequence (announce / lookup / sweep / withdraw) of the listed length starting with an announcement over 2-3 peers and 1-2 chunks with symbolic TTLs, addresses and clock, closed by a lookup of every chunk; lookups return exactly the live non-withdrawn providers with their latest expiry/address; cap of 20 keeps those expiring last (symbolic 21st lifetime).',
+         'event times on a 1/8 s grid, TTL -4..251 s; 21 fully symbolic lifetimes (21! sort orders) outside the bound'),
+ 'C07': ('Bounded symbolic check of routing buckets: bucket index for two fully symbolic 256-bit ids equals the highest differing bit; closest-peer queries over 2 (quick) / 3 (thorough) symbolic contacts, expiries, target and limit against an XOR-distance oracle; bucket shape (<= 16, right bucket, single entry with newest data, never the local id) after symbolic registration sequences and a 17-contact overflow.',
+         'contact ids symbolic in bytes 30-31 with byte 0 fixing the bucket class; see evidence assumptions'),
+ 'C08': ('Symbolic equivalence of Sha256::transform with a FIPS 180-4 reference for every state and block; update/finalize vs the FIPS padding reference for the listed message lengths and every 2-way (and listed 3-way) split with both compressions abstracted by one uninterpreted function; HmacSha256::compute vs RFC 2104 (keys up to 70 B, also > block size); verify accepts exactly the correct 32-byte tag.',
+         'message lengths bounded as listed (<= 129 B quick, <= 130 B thorough); messages >= 2^61 bytes outside the claim'),
+ 'C09': ('Symbolic equivalence of ChaCha20::apply on one block with the RFC 8439 block function for every key, nonce, counter and input; stream layout for the listed lengths with a fully symbolic 32-bit counter (wrap included) using one uninterpreted function for both block functions; involution; CryptoManager counter/nonce plumbing.',
+         'lengths bounded as listed; all-zero key (replaced by a random key) outside the claim; random_device stubbed'),
+ 'C12': ('Symbolic check of the public-key gate for all 2^32 candidates, of the handshake key material (symmetric, injective on unordered pairs) and of the session key both ends register (= HMAC(shared secret, material)); Diffie-Hellman agreement for bounded private scalars.',
+         'DH agreement only for scalars below 2^4 (2^6 thorough) plus listed high-bit scalars; Node::perform_handshake itself not encoded; SHA/HMAC uninterpreted (C08)'),
+ 'C39': ('Bounded symbolic check of two KeyManagers (the two ends of a session) with symbolic rotation interval and tick times: without a rotation the keys stay equal; every history with a rotation is the listed known finding (key derived from the local steady clock, no re-key/teardown).',
+         'KeyManager level only (Node::rotate_session_keys forwards the key, read not encoded); 1-2 ticks per end; HMAC uninterpreted'),
  'C02': ('Bounded-free symbolic check (no loops): sanitize_config, clamp_chunk_ttl and enforce_manifest_ttl with every duration a free 64-bit value and every difficulty a free byte satisfy the window inequalities of the statement.',
          'only the sanitising kernels of core/Node.cpp are encoded; the store/announce call sites and the ControlServer TTL refusal are outside the claim'),
  'C19': ('Bounded symbolic check: leading-zero counters of StoreProof.cpp, TokenChallenge.cpp and Node.cpp equal a bit-level reference (quick: first non-zero byte within 5 bytes; thorough: every digest); store_pow_valid accepts exactly on the capped target and hashes exactly chunk id, size, length-prefixed filename, nonce.',
